@@ -421,9 +421,8 @@ class FromArgs(Generic[T]):
         if i in self._i_to_arg:
             # Compare by key, so that args which are equal but distinct, like 1 and
             # True, are not merged
-            assert self._hash_fn(self._i_to_arg[i]) == self._hash_fn(
-                arg
-            ), f"Two different args at index {i}"
+            if self._hash_fn(self._i_to_arg[i]) != self._hash_fn(arg):
+                raise AssertionError(f"Two different args at index {i}")
         self._i_to_arg[i] = arg
         self._arg_to_i[self._hash_fn(arg)] = i
 
